@@ -134,49 +134,11 @@ func (i *Inst) RunTeardown(s *TdScript, tw *TraceWriter, rng *rand.Rand) error {
 	// the client has stopped reading while the host keeps sending: the relay ends up inside Tunnel.Write, holding the
 	// writer lock, blocked on the full socket - and stays there until that client connection ends
 	if hadHost && s.Inflight == "stalled" {
-		stopSend := make(chan struct{})
-		defer close(stopSend)
-		go func() {
-			buf := make([]byte, 1<<16)
-			for {
-				select {
-				case <-stopSend:
-					return
-				default:
-				}
-				if bc.Send(buf) != nil {
-					return
-				}
-			}
-		}()
-		relayWrites := func() (begins, ends int) {
-			for _, e := range p.Since(start) {
-				if e.Cid == t.Cid && e.Role == "relay" {
-					switch e.Pt {
-					case "tun.write.begin":
-						begins++
-					case "tun.write.end":
-						ends++
-					}
-				}
-			}
-			return
+		stop, err := i.stallRelay(t, bc, start)
+		if err != nil {
+			return err
 		}
-		blocked := false
-		lastEnds, since := -1, time.Now()
-		for limit := time.Now().Add(20 * time.Second); time.Now().Before(limit); {
-			b, e := relayWrites()
-			if e != lastEnds {
-				lastEnds, since = e, time.Now()
-			} else if b == e+1 && time.Since(since) > 250*time.Millisecond {
-				blocked = true
-				break
-			}
-			time.Sleep(20 * time.Millisecond)
-		}
-		if !blocked {
-			return fmt.Errorf("the relay did not block in its write to a client that does not read (stalled scenario could not be set up)")
-		}
+		defer stop()
 	}
 	// the cause
 	closedByClient := map[string]bool{}
@@ -419,4 +381,51 @@ func (i *Inst) teardownPre(s *TdScript, tw *TraceWriter, pc *ProtoCtx, g0 map[st
 		"hostClosed": true, "connsClosed": connsClosed && idReusable, "loopExited": !loopStarted || loopExited, "relayDone": true, "unregistered": !registered || unregistered,
 		"gaugesBack": gaugesBack, "goroutinesBack": goroutinesBack, "panicked": false, "ms": int(time.Since(t0) / time.Millisecond), "idReusable": idReusable})
 	return nil
+}
+
+
+// stallRelay makes the host of tunnel t stream continuously while the client does not read, and returns once the relay
+// goroutine has been sitting inside Tunnel.Write (holding the writer lock, blocked on full socket buffers) for a while.
+func (i *Inst) stallRelay(t *TunConn, bc *envx.BConn, start int) (stop func(), err error) {
+	p := i.P
+	stopSend := make(chan struct{})
+	stop = func() { close(stopSend) }
+	go func() {
+		buf := make([]byte, 1<<16)
+		for {
+			select {
+			case <-stopSend:
+				return
+			default:
+			}
+			if bc.Send(buf) != nil {
+				return
+			}
+		}
+	}()
+	relayWrites := func() (begins, ends int) {
+		for _, e := range p.Since(start) {
+			if e.Cid == t.Cid && e.Role == "relay" {
+				switch e.Pt {
+				case "tun.write.begin":
+					begins++
+				case "tun.write.end":
+					ends++
+				}
+			}
+		}
+		return
+	}
+	lastEnds, since := -1, time.Now()
+	for limit := time.Now().Add(20 * time.Second); time.Now().Before(limit); {
+		b, e := relayWrites()
+		if e != lastEnds {
+			lastEnds, since = e, time.Now()
+		} else if b == e+1 && time.Since(since) > 250*time.Millisecond {
+			return stop, nil
+		}
+		time.Sleep(20 * time.Millisecond)
+	}
+	stop()
+	return func() {}, fmt.Errorf("the relay did not block in its write to a client that does not read (stalled scenario could not be set up)")
 }
